@@ -659,14 +659,17 @@ def rcg_decode(text):
         count = int(m.group(1))
 
         def pred(p):
-            mm = re.match(r'^(.*?)(\d+)\((.*)\)$', p)
+            mm = re.match(r'^(.*)\(([^()]*)\)$', p)
             if not mm:
                 raise ValueError('bad predicate %r' % p)
-            args = mm.group(3).split(',')
-            if len(args) != int(mm.group(2)):
-                raise ValueError('arity suffix %s but %d arguments in %r'
-                                 % (mm.group(2), len(args), p))
-            return mm.group(1), [re.findall(r'\[(\d+)\]', a) for a in args]
+            args = mm.group(2).split(',')
+            # the arity suffix is the number of arguments: a name that ends
+            # in digits itself (a word under lex_in_grammar) stays decodable
+            if not mm.group(1).endswith(str(len(args))):
+                raise ValueError('%d arguments but no arity suffix %d in %r'
+                                 % (len(args), len(args), p))
+            return (mm.group(1)[:-len(str(len(args)))],
+                    [re.findall(r'\[(\d+)\]', a) for a in args])
         lhs, largs = pred(f[1])
         rhs = [pred(p) for p in f[3:]]
         where = {}
